@@ -14,7 +14,7 @@ META = {
             'change it, on every path, loop-agnostic); store lists only mutated by their owner; edges delegate once and pass the validated '
             'capacity; no failure exit after a reservation is consumed. Holds for every history because the obligations are per statement, not per run.',
             'DESIGN.md §4 C01'),
-    'C02': ('other', 'ast path summaries: symbolic object flow (multiset neutrality), binder/cancel index algebra, lock-step length deltas',
+    'C02': ('other', 'ast path summaries: symbolic object flow (multiset neutrality), binder/cancel index algebra, lock-step length deltas, closed mutator vocabulary of the holding/binding lists',
             'Necessary structural conditions of item conservation and distinct binding at store level (multiset neutrality of every entry point, '
             'wrap/unwrap agreement, binding discipline preserved by every mutator, lock-step of the binding lists). Decides those clauses, not the whole behaviour.',
             'DESIGN.md §4 C02'),
@@ -23,8 +23,8 @@ META = {
             'Does not decide the liveness half.', 'DESIGN.md §4 C03'),
     'C04': ('other', 'ast path summaries: potential-based wake-up pairing (rise of free space / available items must be followed by the matching trigger)',
             'Every net rise of free-unreserved space or available-unreserved items inside an atomic segment is followed by the matching trigger call; '
-            'service-loop shape; grant predicate equivalent to availability. Decides the pairing, not timer-driven gates.', 'DESIGN.md §4 C04'),
-    'C05': ('proof', 'ast shape rules: append + stable ascending sort on the request own priority, head-first service, order-preserving removals',
+            'service-loop shape; grant predicate equivalent to availability; every accepted put of a time-gated store arms its own re-trigger timer. Decides the pairing, not timer-driven gates.', 'DESIGN.md §4 C04'),
+    'C05': ('proof', 'ast shape rules: append + stable ascending sort on the request own priority (or bisect_right insertion), head-first service, order-preserving removals',
             'With list.sort stability the rules imply priority-then-FCFS service for the reservation queues and the priority request store.',
             'DESIGN.md §4 C05'),
     'C06': ('other', 'binder / cancellation index algebra (linear normal forms), data dependence of the bound item on the filter match, cancel-all-but-chosen typestate in nodes',
@@ -36,9 +36,9 @@ META = {
     'C08': ('other', 'path typestate of worker slots; data flow of the drawn processing delay to exactly one timeout',
             'Slot requested before pull and released on every exit; delay drawn once and reaching exactly one timeout; no stray waits between pull and push. '
             'Exact residence times are not decided.', 'DESIGN.md §4 C08'),
-    'C09': ('other', 'path partition on the blocking flag: no discard on blocking paths, reserve dominated by can_put on non-blocking paths, definite assignment of the decision variable',
+    'C09': ('other', 'path partition on the blocking flag: no discard on blocking paths, reserve dominated by can_put on non-blocking paths, definite assignment of the decision variable, loop-exit analysis of the first-available scan (exhausted vs. break)',
             'Necessary conditions only; same-instant races for the last slot are not decided.', 'DESIGN.md §4 C09'),
-    'C10': ('other', 'reservation-token typestate (used xor cancelled), cancel-loop completeness, suspension-point whitelist',
+    'C10': ('other', 'reservation-token typestate (used xor cancelled), cancel-loop completeness (guard, iterable not edited, result test not inverted), suspension-point whitelist',
             'Every reservation token created by a node is used or cancelled exactly once on every path; no stray timed waits in pull/push regions. '
             'The instant-by-instant observer is not decided.', 'DESIGN.md §4 C10'),
     'C11': ('other', 'linear normal-form equivalence of can_put/can_get/occupancy with the store predicates; dominance of ready-list append by the item own delay timer',
@@ -51,24 +51,24 @@ META = {
             'DESIGN.md §4 C12, §6'),
     'C13': ('other', 'wait-without-signal scan; path rule with a symbolic clock: after an Interrupt the next travel wait lasts d − (t1 − t0) and follows a resume wait; truth-table check of the state dispatch; value/atom based accumulation gate; who-may-interrupt; sibling agreement of the stall-delay conversion',
             'Structural necessary conditions of stall handling; kinematics are not decided.', 'DESIGN.md §4 C13'),
-    'C14': ('other', 'control dependence of the capacity trigger, activation wait-set shape, two transit timeouts dominate the move, alias analysis of the batch iterable, batch fixed before the transit waits',
+    'C14': ('other', 'control dependence of the capacity trigger, activation wait-set shape, two transit timeouts dominate the move, alias analysis of the batch iterable, batch fixed before the transit waits, exactly one suspension per activation cycle',
             'Structural necessary conditions of batch delivery; batch boundaries in time are not decided.', 'DESIGN.md §4 C14'),
-    'C15': ('other', 'selector-call counting per path, recorded-vs-used index data flow, range-check dominance, generator update normal form',
+    'C15': ('other', 'selector-call counting per path, who-may-consult scan of the user policy, recorded-vs-used index data flow, range-check dominance, generator update normal form, wiring of policy names',
             'Selector consulted once per item, recorded index = used index, range check dominates use, round-robin successor is (i+1) mod n.',
             'DESIGN.md §4 C15'),
-    'C16': ('other', 'loop-bound flow recipe → reservations, counted drain loop invariant, pallet-last emission order',
+    'C16': ('other', 'loop-bound flow recipe → reservations, counted drain loop invariant, pallet-last emission order, path rule over the pallet container operations',
             'Recipe count = reservation count = add_item count; pallet from edge 0; splitter drains then emits the pallet last.', 'DESIGN.md §4 C16'),
     'C17': ('other', 'symbolic effect of the accounting functions (bucket[old state] += now − old stamp; tracked cells), single writer of state, stamp-before-first-wait path rule, path-wise partition check of the Machine state groups over sign classes, thread-state typestate (refresh after change, BLOCKED before a wait for room)',
             'Structural necessary conditions of state-time accounting; equality with time actually spent is not decided.', 'DESIGN.md §4 C17'),
-    'C18': ('other', 'level-updater pairing after every net occupancy change; polynomial identity of the updater effect (W\' = W + N·(now − T), T\' = now, N\' = Σ held); counter/event pairing; timestamp sources',
+    'C18': ('other', 'level-updater pairing after every net occupancy change; polynomial identity of the updater effect (W\' = W + N·(now − T), T\' = now, N\' = Σ held); counter/event pairing with no suspension point in between; timestamp sources',
             'Structural necessary conditions of truthful statistics; numerical equality with the true integral is not decided.', 'DESIGN.md §4 C18'),
-    'C19': ('other', 'forbidden-construct / taint scan (set iteration, id/hash ordering, unseeded entropy, wall clock, kernel clock writes) with canaries',
+    'C19': ('other', 'forbidden-construct / taint scan (set iteration, id/hash/address-repr ordering incl. through attributes, unseeded entropy, wall clock, kernel clock writes) and shared-state analysis (module/class-level mutable objects mutated, aliased or shallow-copied into instance state) with canaries',
             'Absence of the constructs that make runs irreproducible; run-to-run equality itself is not decided.', 'DESIGN.md §4 C19'),
-    'C20': ('other', 'attribute-existence resolution, interface/dispatch exhaustiveness, progress of process cycles, presence of documented validations, one-shot event discipline',
+    'C20': ('other', 'attribute-existence resolution, interface/dispatch exhaustiveness, progress of process cycles, documented validations judged by abstract evaluation over representative configurations, one-shot event discipline, first-iteration None dereference, re-arming of consumed events',
             'Structural necessary conditions of crash/livelock freedom; absence of all run-time exceptions is not decided.', 'DESIGN.md §4 C20'),
 }
 
-NOTE = ('All rules run on the package after a semantics-preserving normalisation (fsa/normalise.py, DESIGN §3.2a). Trusted base: CPython ast; SimPy 4.1 kernel semantics (cooperative processes, succeed() raises if already triggered); list.sort stability; '
+NOTE = ('All rules run on the package after a semantics-preserving normalisation (fsa/flatten.py + fsa/normalise.py, DESIGN §3.2a: helper base classes flattened, helpers inlined, constants propagated). Trusted base: CPython ast; SimPy 4.1 kernel semantics (cooperative processes, succeed() raises if already triggered); list.sort stability; '
         'the fsa engine itself (firing/silent variants in the thorough tier). Static analysis only: nothing in a check imports or runs FactorySimPy.')
 
 NA = {}
